@@ -1129,7 +1129,8 @@ class C01(Prop):
     stateful = True
     rule = ("all 32 formats x lengths 1..32 x {zeros, ones, random}; every field of every type at extreme values; structured and malformed frames: decode, "
             "render, velocity; all ordered pairs from a pool of position reports (CPR pairing); tracker histories with receivers at poles / antimeridian "
-            "and ranges {0, tiny, 500, 1e9}; every operation runs under catch_unwind; non-trivial = decodable frames")
+            "and ranges {0, tiny, 500, 1e9}, and at receiver positions / ranges off the globe (infinite, NaN, 1e308, 0..360 longitudes); every operation runs under catch_unwind and a "
+            "time limit (an operation that does not complete is reported as a hang); non-trivial = decodable frames")
     claim = "the model never reaches a panic branch: decode, calculate (with every Rust overflow check written out) and the altitude readers are total (theorems); the implementation never panicked on any explored input"
     def ops(self, rng, tier):
         n = 4000 if tier == "quick" else 60000
@@ -1172,6 +1173,13 @@ class C01(Prop):
             for rg in ("0", "0.000000001", "500", "1000000000"):
                 h = gentrack.history(rng, 60 if tier == "quick" else 300, n_planes=3, with_time=True, rx=rx, rng_range=500)
                 h[0] = "T reset %s %s %s" % (rx[0], rx[1], rg)
+                ops += h
+        # receiver positions and ranges that are not on the globe at all (a mistyped or uninitialised configuration): infinite, not-a-number,
+        # astronomically large, 0..360 style longitudes - the flights themselves are ordinary, so pairs decode and every distance check runs
+        for (la, lo) in (("inf", "0"), ("0", "inf"), ("-inf", "-inf"), ("NaN", "NaN"), ("0", "1e308"), ("1e18", "-1e18"), ("39", "283"), ("-91", "541"), ("1e-320", "-0.0")):
+            for rg in ("500", "inf", "NaN", "-1"):
+                h = gentrack.history(rng, 40 if tier == "quick" else 150, n_planes=2, with_time=True, rx=(39.0, -77.0), rng_range=500)
+                h[0] = "T reset %s %s %s" % (la, lo, rg)
                 ops += h
         return ops
     def equal(self, a, m): return a == m or numeq(a, m, 1e-3) or a.startswith("TXT") or a.startswith("POS") or a.startswith("VEL")
